@@ -47,6 +47,8 @@ def main():
         line = chk.get('violation_line', '')
         kind = kind_of(chk)
         first = kind_of(d['first_check']) if d.get('first_check') else kind
+        if d.get('other_checks'):
+            kind += ' (' + '; '.join(f'{k} check: concrete replay' for k, v in d['other_checks'].items() if v.get('exit') == 1) + ')'
         out.append(f'| {name} | {str(d.get("breaks"))[:160]} | {str(d.get("needs"))[:200]} | exit {chk.get("exit")} in {chk.get("seconds")} s | {kind} | {first} |')
     gen = '\n'.join(out) + '\n'
     path = os.path.join(HERE, 'DESIGN.md')
